@@ -104,6 +104,16 @@ MUTATIONS = [
      ("    1u128 << (kind as usize)", "    1u128 << (kind as usize % 64)"), r"c13_token_set_is_a_set_of_kinds"),
     ("to_token_kind_panics_on_dollar", "C13", "fea-rs/src/parse/lexer/lexeme.rs",
      ("            Self::StringUnterminated | Self::HexEmpty | Self::Tombstone => {", "            Self::StringUnterminated | Self::HexEmpty | Self::Tombstone | Self::Hyphen => {"), r"c13_to_token_kind_total_for_every_forwarded_kind"),
+    ("glyphs_number_split_counts_leading_digits_again", "C13", "fea-rs/src/parse/grammar/metrics.rs",
+     ("                let decimal_len = text.as_bytes()[len + 1..]\n", "                let decimal_len = text.as_bytes()\n"), r"c13_glyphs_number_ident_split_tiles_the_token_up_to_4_bytes"),
+    ("validate_glyph_name_position_off_by_one", "C13", "fea-rs/src/parse/grammar/glyph.rs",
+     ("                _ => return NameType::Invalid(idx + 1),", "                _ => return NameType::Invalid(idx + 2),"), r"c13_validate_glyph_name_total_and_positions_in_range"),
+    ("max_context_chained_ignores_lookahead", "C17", "fontbe/src/os2/max_context.rs",
+     ("        ContextualRuleType::Chained => input_glyph_count + lookahead_glyph_count,", "        ContextualRuleType::Chained => input_glyph_count,"), r"c17_max_context_of_rule_is_exact"),
+    ("rounding_behaviour_truncates", "C07", "fontdrasil/src/variations.rs",
+     ("            RoundingBehaviour::RoundTiesEven => value.round_ties_even(),", "            RoundingBehaviour::RoundTiesEven => value,"), r"c07_rounding_behaviour_apply_within_half"),
+    ("phantom_points_advance_not_rounded", "C19", "fontir/src/ir.rs",
+     ("        points.push(Point::new(advance_width as f64, 0.0)); // rightSideX, 0", "        points.push(Point::new(self.width, 0.0)); // rightSideX, 0"), r"c19_phantom_points_carry_the_rounded_advance"),
     ("rank_shift_carry_into_bit_62", "C16", "fontir/src/feature_variations.rs",
      ("            *val |= carry_bit << 63;", "            *val |= carry_bit << 62;"), r"c16_rank_shift_"),
     ("rank_bitor_assign_front_aligned", "C16", "fontir/src/feature_variations.rs",
